@@ -309,6 +309,7 @@ func newRun(cfg *Config, sol *Solver, prefix []Decision, pinned []uint64) *Run {
 	r.wgs = map[*value]*wgState{}
 	r.onces = map[*value]*onceState{}
 	r.atomicVals = map[*value]value{}
+	r.timerOf = map[*value]*timer{}
 	r.finished = make(chan struct{})
 	if pinned != nil {
 		r.pinEnv = map[string]uint64{}
